@@ -132,10 +132,9 @@ class OperatorGraphTemplate(AbstractBaseTemplate):
         all_values = {}  # # type: Dict[OperatorIR, Dict]
 
         for template, variations in self.operators.items():
-            values_to_update = variations
-
-            if values_to_update is None:
-                values_to_update = {}
+            # copy: values passed for this application (and the defaults filled in below) must not be written into the
+            # variations of the template, which other nodes and later applications share
+            values_to_update = dict(variations) if variations else {}
             # if a value for this particular variation has been passed, overwrite the previous value
             if template.name in value_updates:
                 values_to_update.update(value_updates.pop(template.name))
